@@ -547,7 +547,8 @@ def _create_sbml_reactions(
     sbml_model: libsbml.Model,
 ) -> None:
     """Create the reactions for the sbml model."""
-    references: set[str] = set()
+    # ids of the species references of derived stoichiometries; they must not be names of the model
+    references: set[str] = set(model.ids)
     for name, rxn in model.get_raw_reactions().items():
         sbml_rxn = sbml_model.createReaction()
         sbml_rxn.setId(_convert_id_to_sbml(id_=name, prefix="RXN"))
@@ -572,6 +573,8 @@ def _create_sbml_reactions(
                     if reference in references:
                         # the same compound has a derived stoichiometry in an earlier reaction
                         reference = f"{compound_id}ref_{name}"
+                    while reference in references:
+                        reference = f"{reference}_"
                     references.add(reference)
                     _create_derived_parameter(sbml_model, reference, factor)
 
